@@ -10,7 +10,7 @@
 (*   ztaken   items in the order consumers took them out of their mailbox [item, by]    *)
 (*   zproc    the value of `processor` after each such take                             *)
 (*   zprod    number of committed p2 steps of the producer (one read of the stream each) *)
-EXTENDS dqueue
+EXTENDS dqueue, Integers
 
 VARIABLES zreqs, zhanded, ztaken, zproc, zprod
 zhvars == <<vars, zreqs, zhanded, ztaken, zproc, zprod>>
